@@ -30,7 +30,7 @@ impl Prop for C07 {
         "exploration"
     }
     fn rule(&self) -> String {
-        "complete enumeration: suites x all (n,t) up to the bound x 5 identifier kinds (non-contiguous, derived, arbitrary scalars; every participant's view is checked, so each is smallest / middle / largest somewhere) x seeds, full three-part run through each crate's wrappers (incl. tiny field); oracles: identical public packages, package consistency, group key = sum of constant-term commitments (Taproot: BIP-341 tweak recomputed with libsecp256k1), entries = summed commitment polynomial evaluated independently, EVERY t-subset interpolates to the key and signs. Non-trivial = all n participants completed part3".into()
+        "complete enumeration: suites x all (n,t) up to the bound x 5 identifier kinds (non-contiguous, derived, arbitrary scalars; every participant's view is checked, so each is smallest / middle / largest somewhere) x seeds, full three-part run through each crate's wrappers (incl. tiny field); oracles: identical public packages, package consistency, group key = sum of constant-term commitments (Taproot: BIP-341 tweak recomputed with libsecp256k1), entries = summed commitment polynomial evaluated independently, EVERY t-subset interpolates to the key and signs; plus t = n = 20 and (40,2) groups. Non-trivial = all n participants completed part3".into()
     }
     fn assumptions(&self) -> Vec<String> {
         vec!["per-participant polynomials are seeded streams (all values are covered for dealer sharing in C06 on the tiny field; the DKG sums the same evaluations)".into()]
